@@ -51,14 +51,18 @@ def is_sym(a):
   return isinstance(a, np.ndarray) and a.dtype == object
 
 
+_LIFT = [lift]    # scalar lifting of the active domain (swapped by FPInterp while it evaluates)
+
+
 def toobj(a):
   if is_sym(a):
     return a
   a = np.asarray(a)
   out = np.empty(a.shape, dtype=object)
   flat = out.reshape(-1)
+  lf = _LIFT[0]
   for k, x in enumerate(a.reshape(-1)):
-    flat[k] = lift(x)
+    flat[k] = lf(x)
   return out
 
 
@@ -95,7 +99,7 @@ NO_CONCRETE_BIND = {
     'while', 'cond', 'jit', 'pjit', 'closed_call', 'core_call', 'remat', 'checkpoint',
     'custom_jvp_call', 'custom_vjp_call', 'custom_vjp_call_jaxpr', 'axis_index',
     'all_gather', 'psum', 'pmax', 'pmin', 'symstub', 'scan', 'sharding_constraint',
-    'eigh', 'svd', 'qr', 'mesh_cast', 'psum_invariant', 'pvary', 'pbroadcast', 'all_gather_invariant',
+    'eigh', 'svd', 'qr', 'mesh_cast', 'reshard', 'psum_invariant', 'pvary', 'pbroadcast', 'all_gather_invariant',
 }
 
 
@@ -308,6 +312,7 @@ class Interp:
   def p_stop_gradient(self, e, i): return i[0]
   def p_sharding_constraint(self, e, i): return i[0]
   def p_mesh_cast(self, e, i): return i[0]
+  def p_reshard(self, e, i): return i[0]
   def p_pvary(self, e, i): return list(i)
   def p_optimization_barrier(self, e, i): return list(i)
   def p_reduce_precision(self, e, i): return i[0]
